@@ -333,40 +333,44 @@ def fmt_case(fid, ops):
     return "%d %s\n" % (fid, " ".join("%x" % o for o in ops))
 
 
-def run_lines(exe, text, nlines, timeout=600):
-    """feeds `text` (nlines case lines); returns list of nlines outputs ("crash:<status>" for a case that killed the
-    process, None for cases that could not be run)"""
-    results = []
-    pos = 0
-    lines = text.splitlines(True)
-    crashes = 0
+def run_lines(exe, lines, fids, timeout=900):
+    """feeds the case lines; returns one output per line: the printed line, "crash:<status>" for a case that killed the
+    process, None for cases not run (the remaining cases of a function that crashed the process are skipped)"""
+    n = len(lines)
+    results = [None] * n
+    todo = list(range(n))
+    crashed_fids = set()
     first = True
-    while pos < nlines:
-        chunk = "".join(lines[pos:])
-        if not first:
-            chunk = "M 1\n" + chunk
-        st, so, _ = C.run_exe(exe, stdin=chunk.encode(), timeout=timeout, merge=True)
+    while todo:
+        text = ("" if first else "M 1\n") + "".join(lines[i] for i in todo)
+        st, so, _ = C.run_exe(exe, stdin=text.encode(), timeout=timeout, merge=True)
         outl = so.split("\n")
-        if st == 0 and len(outl) >= 2 and outl[-2] == "END" and len(outl) - 2 == nlines - pos:
-            results += outl[:nlines - pos]
-            pos = nlines
+        if st == 0 and len(outl) >= 2 and outl[-2] == "END" and len(outl) - 2 == len(todo):
+            for i, l in zip(todo, outl):
+                results[i] = l
             break
         if first:
-            first = False          # rerun the remainder flushing every line, to locate the crashing case
+            first = False          # run again flushing every line, to locate the case that kills the process
             if st == 0:
-                raise C.Undecided("evaluator printed %d lines for %d cases (status 0): %s" % (len(outl) - 2, nlines - pos, so[-300:]))
+                raise C.Undecided("evaluator printed %d lines for %d cases (status 0): %s" % (len(outl) - 2, len(todo), so[-300:]))
             continue
-        done = [l for l in outl if l != ""]
-        # in line-flush mode every complete case has its line; the next one killed the process
-        good = [l for l in done if l == "panic" or all(ch in "0123456789abcdef " for ch in l)]
-        results += good
-        pos += len(good)
-        if pos < nlines:
-            results.append("crash:%s" % st)
-            pos += 1
-            crashes += 1
-        if crashes >= 12:
-            results += [None] * (nlines - pos)
+        # line-flush mode: every completed case has its line; the next case killed the process
+        good = []
+        for l in outl:
+            if l == "panic" or (l != "" and all(ch in "0123456789abcdef " for ch in l)):
+                good.append(l)
+            else:
+                break
+        good = good[:len(todo)]
+        for i, l in zip(todo, good):
+            results[i] = l
+        rest = todo[len(good):]
+        if rest:
+            results[rest[0]] = "crash:%s" % st
+            crashed_fids.add(fids[rest[0]])
+            rest = [i for i in rest[1:] if fids[i] not in crashed_fids]
+        todo = rest
+        if len(crashed_fids) >= 200:
             break
     return results
 
@@ -380,8 +384,7 @@ def run_cases(exe, cases, par=8):
 
     def one(r):
         lo, hi = r
-        text = "".join(fmt_case(c[0], c[1]) for c in cases[lo:hi])
-        return run_lines(exe, text, hi - lo)
+        return run_lines(exe, [fmt_case(c[0], c[1]) for c in cases[lo:hi]], [c[0] for c in cases[lo:hi]])
     with ThreadPoolExecutor(max_workers=par) as ex:
         parts = list(ex.map(one, chunks))
     return [x for p in parts for x in p]
